@@ -45,7 +45,7 @@ FILES = [
     [[], ["k", "1", "1"], ["n", "1", "2"]],
     [["k", "1", " pad "], ["k", "1", "é"]],
 ]
-R1 = '~ id: r1 ~ $[*][@v = #0 @only1 = #1 push("seen", #0) @t.k = #1 @z.k = subtract(count_lines(), count_lines()) @z.e = no() #0 == "k"]'
+R1 = '~ id: r1 ~ $[*][@v = #0 @only1 = #1 push("seen", #0) @t.k = #1 @z.k = subtract(count_lines(), count_lines()) @z.e = no() @z0 = subtract(count_lines(), count_lines()) #0 == "k"]'
 R2 = "~ id: r2 ~ $[*][@v = #1 @only2 = #0]"
 H1 = '~ id: h1 ~ $[*][#0 == "k"]'
 RFILES = [
@@ -205,6 +205,7 @@ def run_case(case):
             "d": data[-1][0],          # only2 = #0
             "z": 0,                    # z.k: a tracking key whose final value is falsy
             "ze": False,               # z.e
+            "z0": 0,                   # an untracked variable whose final value is falsy
             "hv": [r[1] for r in data if r[0] == "k"],
             "h0": [r[0] for r in data if r[0] == "k"],
             "m1": [r[1] for r in data if r[0] == "k"],
@@ -212,7 +213,7 @@ def run_case(case):
         }
         probe = cp.csvpath()
         pf = cp.file_manager.get_named_file("f0")
-        text = f"${pf}[1][ @a = $R.variables.v @b = $R.variables.only1 @c = $R.variables.t.k @d = $R.variables.only2 @z = $R.variables.z.k @ze = $R.variables.z.e @hv = $H.headers.c1 @h0 = $H.headers.c0 @m2 = $H3.headers.c0.ha @m1 = $H3.headers.c1.h1 ]"
+        text = f"${pf}[1][ @a = $R.variables.v @b = $R.variables.only1 @c = $R.variables.t.k @d = $R.variables.only2 @z = $R.variables.z.k @ze = $R.variables.z.e @z0 = $R.variables.z0 @hv = $H.headers.c1 @h0 = $H.headers.c0 @m2 = $H3.headers.c0.ha @m1 = $H3.headers.c1.h1 ]"
         got = {}
         try:
             with sandbox.capture_stdout():
@@ -234,7 +235,7 @@ def run_case(case):
             bad("probe errors", perr, [], cstr)
         for k in exp:
             if got.get(k) != exp[k]:
-                what = {"a": "$R.variables.v (written by both members)", "b": "$R.variables.only1", "c": "$R.variables.t.k", "d": "$R.variables.only2", "z": "$R.variables.z.k (final value 0)", "ze": "$R.variables.z.e (final value False)", "hv": "$H.headers.c1", "h0": "$H.headers.c0 (first header)", "m1": "$H3.headers.c1.h1 (member of a 3-member group, one member collected nothing)", "m2": "$H3.headers.c0.ha"}[k]
+                what = {"a": "$R.variables.v (written by both members)", "b": "$R.variables.only1", "c": "$R.variables.t.k", "d": "$R.variables.only2", "z": "$R.variables.z.k (final value 0)", "ze": "$R.variables.z.e (final value False)", "z0": "$R.variables.z0 (final value 0)", "hv": "$H.headers.c1", "h0": "$H.headers.c0 (first header)", "m1": "$H3.headers.c1.h1 (member of a 3-member group, one member collected nothing)", "m2": "$H3.headers.c0.ha"}[k]
                 bad(f"{what} is not the value the most recent run left", got.get(k), exp[k], cstr)
         return {"viol": viol, "states": [run.h64((tuple(hist[: i + 1]), method)) for i in range(len(hist))], "transitions": 2 * len(hist) + 1, "nontrivial": len(hist) > 1, "outcome": run.h64(exp), "fingerprint": run.h64((cstr, [v["diverge"] for v in viol]))}
 
